@@ -36,7 +36,12 @@ def run_scenario(item):
     recs = out['recs']
     with World('st') as w:
         be = w.backend('p0')
-        pool = simple_pool([['127.0.0.1', be.port, 'primary']], pool_size=4)
+        be1 = w.backend('p1')
+        pool = simple_pool(None, pool_size=4, shards={
+            '0': {'database': 'db', 'servers': [['127.0.0.1', be.port, 'primary']]},
+            '1': {'database': 'db', 'servers': [['127.0.0.1', be1.port, 'primary']]}})
+        pool['shard_id_regex'] = r'/\* shard_id: (\d+) \*/'
+        pool['sharding_function'] = 'pg_bigint_hash'
         pool['users']['1'] = {'username': 'um', 'password': 'secretm', 'pool_size': 2}
         w.start(pools={'db': pool})
         admin = w.admin()
@@ -66,21 +71,28 @@ def run_scenario(item):
             totals = {'xact': sum(int(r['total_xact_count']) for r in tot), 'query': sum(int(r['total_query_count']) for r in tot),
                       'sent': sum(int(r['total_sent']) for r in tot), 'received': sum(int(r['total_received']) for r in tot),
                       'errors': sum(int(r['total_errors']) for r in tot)}
-            live = len([s for s in be.live_sessions() if s.user == 'u'])
+            live = len([s for s in be.live_sessions() + be1.live_sessions() if s.user == 'u'])
             recs.append({'ev': 'servers', 'live': live})
             recs.append({'ev': 'sample', 'clients': cl, 'duplicate_rows': len(names) != len(set(names)), 'pools': pools,
                          'server_rows': len(srv), 'totals': totals, 'kinds': list(kinds)})
 
         def request(n, sql=None, raw=None, ends=None):
             c = clients[n]
+            mark = w.log.mark()
             if raw is not None:
                 c.send(raw)
                 rep = c.read_reply(4.0)
             else:
-                rep = c.query(sql)
+                # an earlier refused request leaves its shard number selected: every statement names shard 0 again
+                rep = c.query('/* shard_id: 0 */ ' + sql)
             if rep.end != 'Z':
                 out['notes'].append('no reply to %s: %s' % (sql or 'raw', rep.brief()[:80]))
                 return None
+            ran = [e for e in w.log.snapshot()[mark:] if e.get('ev') == 'exec' and e.get('client') == n]
+            if not ran and rep.error:
+                # answered by the pooler itself, no server involved
+                recs.append({'ev': 'refused', 'c': n})
+                return rep
             over = rep.status == 'I'
             recs.append({'ev': 'request', 'c': n, 'ends': over})
             intx[n] = not over
@@ -117,7 +129,7 @@ def run_scenario(item):
                         if rng.random() < 0.3:
                             kinds.append('extended')
                             c = clients[n]
-                            request(n, raw=W.Parse('', 'SELECT 1 ' + c.tag()) + W.Bind('', '') + W.Execute() + W.Sync())
+                            request(n, raw=W.Parse('', '/* shard_id: 0 */ SELECT 1 ' + c.tag()) + W.Bind('', '') + W.Execute() + W.Sync())
                         else:
                             request(n, rng.choice(['SELECT 1', 'UPDATE t SET a = 1', 'BAD syntax']))
                 elif a == 'copy':
@@ -127,7 +139,7 @@ def run_scenario(item):
                     else:
                         kinds.append('copy')
                         c = clients[n]
-                        c.send(W.Q('COPY t FROM STDIN ' + c.tag()))
+                        c.send(W.Q('/* shard_id: 0 */ COPY t FROM STDIN ' + c.tag()))
                         r1 = c.read_reply(4.0, stop=('G', 'Z'))
                         if r1.end == 'G':
                             c.send(W.CopyData(b'1\n') + W.CopyDone())
@@ -136,6 +148,20 @@ def run_scenario(item):
                                 recs.append({'ev': 'request', 'c': n, 'ends': True})
                             else:
                                 out['notes'].append('copy not completed')
+            elif op == 'refused' and n in clients and not intx[n]:
+                # a request the pooler has to refuse before any server is involved: there is no shard 7
+                kinds.append('refused')
+                c = clients[n]
+                mark = w.log.mark()
+                rep = c.query('/* shard_id: 7 */ SELECT 1')
+                ran = [e for e in w.log.snapshot()[mark:] if e.get('ev') == 'exec' and e.get('client') == n]
+                if rep.end == 'Z' and rep.error and not ran:
+                    recs.append({'ev': 'refused', 'c': n})
+                elif rep.end == 'Z' and ran:
+                    recs.append({'ev': 'request', 'c': n, 'ends': rep.status == 'I'})
+                    out['notes'].append('request for a missing shard was executed')
+                else:
+                    out['notes'].append('refused request: ' + rep.brief()[:80])
             elif op == 'leave' and n in clients:
                 c = clients.pop(n)
                 if a == 'clean':
@@ -171,7 +197,7 @@ def check_c18(prop, tier, seed):
     v.add_mc('mc:design', res)
     if res.rc != 0:
         v.tool_error('Stats design rc=%d %s' % (res.rc, res.errors()[:2]))
-    for d in ('abnormal_exit_keeps_row', 'copy_counts_twice'):
+    for d in ('abnormal_exit_keeps_row', 'copy_counts_twice', 'refused_request_leaves_waiting'):
         r2 = tlc.run_tlc('Stats', 'MC_Stats_dev_%s.cfg' % d, workers=4)
         v.add_mc('mc:dev:' + d, r2)
         if not r2.invariant_violated:
@@ -249,6 +275,6 @@ def check_c18(prop, tier, seed):
     for it, r in ok[:2]:
         v.add_sample({'steps': [(x['op'], x['c'], x['a']) for x in it['steps']], 'trace': r['recs'][1:5]})
     v.cov['rule'] = ('histories = random behaviours (tlc -simulate, seeded) of Gen_Stats: 9 steps over {connect, failed login, '
-                     'request (opens / continues / ends a transaction, COPY), clean or abnormal exit} of 3 clients; after every step '
+                     'request (opens / continues / ends a transaction, COPY), refused request (no such shard), clean or abnormal exit} of 3 clients; after every step '
                      'SHOW CLIENTS / POOLS / SERVERS / STATS are sampled; distinct = histories')
     return v.finish()
